@@ -283,6 +283,11 @@ func (t *textReader) nextBeforeTypeAnnotations() (bool, error) {
 			t.valueType = SymbolType
 			t.state = t.stateAfterValue()
 		} else {
+			if tok == tokenSymbol && val == "$ion_1_0" && len(t.annotations) == 0 && t.ctx.peek() == ctxAtTopLevel {
+				// An Ion version marker: a system value that resets the symbol table.
+				t.lst = V1SystemSymbolTable
+				return false, nil
+			}
 			if err := t.onSymbol(val, tok, ws); err != nil {
 				return false, err
 			}
